@@ -82,6 +82,14 @@ func TestModel(t *testing.T) {
 	chk(modelMember(vStr("abc"), "substring", []rv{vInt(-1)}), mValue, vStr("ab"))
 	chk(modelMember(vStr("abc"), "substring", []rv{vInt(3)}), mEither, vStr("abc"))
 	chk(modelMember(vStr("abc"), "substring", []rv{vInt(4)}), mInterrupt, rv{})
+	chk(modelMember(vObj("keys", vInt(5)), "keys", nil), mValue, vInt(5))
+	chk(modelIndexSet(l, vInt(3), vInt(9)), mInterrupt, rv{})
+	if e := modelIndexSet(l, vInt(-1), vInt(9)); !eq(e.After, vList(vInt(3), vInt(1), vInt(9))) {
+		t.Errorf("l[-1] = 9: %s", show(e.After))
+	}
+	if e := modelAssign(vObj("keys", vInt(5), "a", vInt(1)), "keys", vInt(0)); !eq(e.After, vObj("keys", vInt(0), "a", vInt(1))) {
+		t.Errorf("o.keys = 0: %s", show(e.After))
+	}
 	chk(modelMember(l, "pop", nil), mValue, vSome(vInt(2)))
 	chk(modelMember(vList(), "last", nil), mValue, vNone())
 	if ok, _ := hasType(vList(vInt(1), vStr("x")), tList(tInt())); ok {
